@@ -87,3 +87,9 @@ package common
 //@   props C01
 //@   modifies nothing
 //@   ensures [C01:beacon-randomness-is-the-sha256-of-its-signature] r == digest(256, b.Signature)
+
+// ---- C14: the version comparison used by the interceptor in front of the recovery interceptor cannot panic -------------
+//@ func (Version).IsCompatible(v, verRcv) (ok)
+//@   props C14
+//@   flags nopanic=C14
+//@   modifies nothing
